@@ -1,12 +1,25 @@
 // c07: evaluates the real contradiction / fork-choice / priority functions on the truth tables
 // printed by TLC from spec/ForkChoice.tla and compares every entry.
 //
+// The tables are abstract: generators are ids 1..2, integers are small, receive times are offsets from the start of a
+// slot.  The harness CONCRETISES every row several ways without changing what the specification says about it:
+//   - generator ids -> addresses, from several families (two ordinary 20-byte addresses; two that differ in one middle byte;
+//     a 19-byte address and its 20-byte extension; the empty and the nil address next to an ordinary one): "same generator"
+//     is equality of the address bytes and nothing else;
+//   - small integers -> uint32 values through strictly increasing maps that keep "tip height + 1" (the specification uses
+//     comparisons and that one successor only), reaching 0, 2^31-1, 2^31, 2^32-2, 2^32-1; one of them puts a genesis block
+//     (version 0, height 0) at the tip;
+//   - receive-time offsets -> wall-clock seconds (the evaluation is repeated when the clock moved to the next second while
+//     the row was being set up).
+//
 // usage: c07 <tables.txt> <out.json> <nrandom>
 package main
 
 import (
 	"bufio"
+	"bytes"
 	"fmt"
+	"hash/fnv"
 	"math/rand"
 	"os"
 	"sort"
@@ -42,20 +55,73 @@ type Violation struct {
 }
 
 type Out struct {
-	Pairs      int         `json:"pairs"`
-	PairsTrue  int         `json:"pairs_contradicting"`
-	Cases      int         `json:"classify_cases"`
-	Classes    map[string]int `json:"classes"`
-	Prios      int         `json:"priority_rows"`
-	Random     int         `json:"random_pairs"`
-	RandomTrue int         `json:"random_pairs_contradicting"`
-	Violations []Violation `json:"violations"`
-	Samples    []string    `json:"samples"`
+	Pairs          int            `json:"pairs"`
+	PairsTrue      int            `json:"pairs_contradicting"`
+	APIPairs       int            `json:"api_pairs"`
+	EqualFields    int            `json:"api_pairs_equal_fields_distinct_ids"`
+	Redecoded      int            `json:"api_pairs_redecoded_copy"`
+	Families       map[string]int `json:"generator_identity_families"`
+	Cases          int            `json:"classify_cases"`
+	CaseEvals      int            `json:"classify_evaluations"`
+	CaseEmb        map[string]int `json:"classify_embeddings"`
+	CaseFam        map[string]int `json:"classify_generator_identity_families"`
+	CaseBoundary   int            `json:"classify_rows_duplicate_with_boundary_receive_times"`
+	CaseRetried    int            `json:"classify_evaluations_repeated_clock_moved"`
+	CaseUnjudged   int            `json:"classify_evaluations_unjudged_clock_moved"`
+	PredsCompared  int            `json:"predicates_compared_where_the_cascade_reaches_them"`
+	Classes        map[string]int `json:"classes"`
+	Prios          int            `json:"priority_rows"`
+	PriosGenesis   int            `json:"priority_rows_genesis_header"`
+	PrioEvals      int            `json:"priority_evaluations"`
+	Random         int            `json:"random_pairs"`
+	RandomReq      int            `json:"random_pairs_requested"`
+	RandomTrue     int            `json:"random_pairs_contradicting"`
+	RandomAPI      int            `json:"random_pairs_through_api"`
+	RandomBoundary int            `json:"random_pairs_with_uint32_boundary_value"`
+	Violations     []Violation    `json:"violations"`
+	Samples        []string       `json:"samples"`
 }
 
-func sealed(h, mhg, mhp uint32, gen int, salt byte) *blockchain.BlockHeader {
-	hdr := &blockchain.BlockHeader{Version: 2, Height: h, MaxHeightGenerated: mhg, MaxHeightPrevoted: mhp,
-		GeneratorAddress: bftx.Addr(gen), PreviousBlockID: make([]byte, 32), AggregateCommit: &blockchain.AggregateCommit{},
+// ---------------------------------------------------------------- generator identities
+
+type family struct {
+	name string
+	a    [2][]byte // address of abstract generator 1, 2
+}
+
+func rep(b byte, n int) []byte { return bytes.Repeat([]byte{b}, n) }
+
+func families() []family {
+	mid1, mid2 := rep(0xaa, 20), rep(0xaa, 20)
+	mid2[10] = 0xab
+	head1, head2 := rep(0x11, 20), rep(0x11, 20) // equal in the first 8 bytes and in the last byte
+	head2[9] = 0x12
+	p19 := rep(0x55, 19)
+	p20 := append(rep(0x55, 19), 0x00)
+	return []family{
+		{"ordinary", [2][]byte{bftx.Addr(1), bftx.Addr(2)}},
+		{"one-middle-byte", [2][]byte{mid1, mid2}},
+		{"equal-head-and-tail", [2][]byte{head1, head2}},
+		{"19-vs-20-bytes", [2][]byte{p19, p20}},
+		{"20-vs-19-bytes", [2][]byte{p20, p19}},
+		{"empty-vs-ordinary", [2][]byte{{}, bftx.Addr(1)}},
+		{"nil-vs-ordinary", [2][]byte{nil, bftx.Addr(1)}},
+		{"ordinary-vs-nil", [2][]byte{bftx.Addr(2), nil}},
+	}
+}
+
+// addr returns a fresh copy (own backing array) of the family's address of abstract generator g
+func (f family) addr(g int) []byte {
+	src := f.a[g-1]
+	if src == nil {
+		return nil
+	}
+	return append(make([]byte, 0, len(src)), src...)
+}
+
+func sealedV(version, h, mhg, mhp uint32, gen []byte, salt byte) *blockchain.BlockHeader {
+	hdr := &blockchain.BlockHeader{Version: version, Height: h, MaxHeightGenerated: mhg, MaxHeightPrevoted: mhp,
+		GeneratorAddress: gen, PreviousBlockID: make([]byte, 32), AggregateCommit: &blockchain.AggregateCommit{},
 		Signature: []byte{salt}}
 	hdr.Init()
 	return hdr
@@ -72,7 +138,53 @@ func parse(line string) []string {
 	return parts
 }
 
+// hsh: the concretisation of a row is chosen by a hash of its text, so that it does not depend on the order in which TLC's
+// workers printed the rows
+func hsh(line string) int {
+	h := fnv.New32a()
+	h.Write([]byte(line)) //nolint
+	return int(h.Sum32() >> 1)
+}
+
 func u(s string) uint32 { v, _ := strconv.Atoi(s); return uint32(v) }
+func in(s string) int   { v, _ := strconv.Atoi(s); return v }
+
+// ---------------------------------------------------------------- integer embeddings
+
+// emb maps the abstract heights TipH-1 .. TipH+2 (2..5) and the abstract prevoted heights 0..2 of the classification
+// table to uint32 values: strictly increasing, H[2] = H[1] + 1.  A negative entry: rows with that abstract value are not
+// evaluated under this embedding.
+type emb struct {
+	name       string
+	H          [4]int64
+	P          [3]int64
+	tipVersion uint32
+	aboveTip   bool // only rows with an incoming height above the tip's (what a node at its genesis block can receive)
+}
+
+const (
+	m31 = int64(1) << 31
+	m32 = int64(1) << 32
+	bt  = 1000 // BT of ForkChoice.tla: seconds per slot
+)
+
+var embs = []emb{
+	{"small", [4]int64{2, 3, 4, 5}, [3]int64{0, 1, 2}, 2, false},
+	{"low", [4]int64{0, 1, 2, m31}, [3]int64{0, m31 - 1, m31}, 2, false},
+	{"sign-bit", [4]int64{m31 - 2, m31 - 1, m31, m31 + 1}, [3]int64{m31 - 1, m31, m32 - 1}, 2, false},
+	{"top", [4]int64{1, m32 - 3, m32 - 2, m32 - 1}, [3]int64{m32 - 3, m32 - 2, m32 - 1}, 2, false},
+	{"wide", [4]int64{0, m31, m31 + 1, m32 - 1}, [3]int64{0, 1, m32 - 1}, 2, false},
+	{"genesis-tip", [4]int64{-1, 0, 1, 2}, [3]int64{-1, 0, 1}, 0, true},
+}
+
+// monotone maps of the ranks 0..4 of the priority table
+var prioEmbs = [][5]uint32{
+	{0, 1, 2, 3, 4},
+	{0, 1, uint32(m31 - 1), uint32(m31), uint32(m32 - 1)},
+	{uint32(m31 - 2), uint32(m31 - 1), uint32(m31), uint32(m31 + 1), uint32(m31 + 2)},
+	{uint32(m32 - 5), uint32(m32 - 4), uint32(m32 - 3), uint32(m32 - 2), uint32(m32 - 1)},
+	{0, 1 << 16, uint32(m31), uint32(m32 - 2), uint32(m32 - 1)},
+}
 
 func main() {
 	if len(os.Args) < 4 {
@@ -84,12 +196,16 @@ func main() {
 		panic(err)
 	}
 	nrand, _ := strconv.Atoi(os.Args[3])
-	out := &Out{Classes: map[string]int{}}
+	out := &Out{Classes: map[string]int{}, Families: map[string]int{}, CaseEmb: map[string]int{}, CaseFam: map[string]int{}, Violations: []Violation{}, RandomReq: nrand}
+	perKey := map[string]int{}
 	viol := func(key, what string, replay interface{}) {
-		if len(out.Violations) < 20 {
+		perKey[key]++
+		if perKey[key] <= 3 && len(out.Violations) < 40 {
 			out.Violations = append(out.Violations, Violation{key, what, replay})
 		}
 	}
+	r := rand.New(rand.NewSource(int64(tj.EnvInt("VERIF_SEED", 1))))
+	fams := families()
 	api := liskbft.NewModule().API()
 	table := map[[8]uint32]bool{}
 	maxF := uint32(0)
@@ -103,112 +219,274 @@ func main() {
 		p := parse(line)
 		switch p[0] {
 		case "TT":
-			a := &ph{u(p[1]), u(p[2]), u(p[3]), bftx.Addr(int(u(p[4])))}
-			b := &ph{u(p[5]), u(p[6]), u(p[7]), bftx.Addr(int(u(p[8])))}
+			fam := fams[hsh(line)%len(fams)]
+			g1, g2 := int(u(p[4])), int(u(p[8]))
+			a := &ph{u(p[1]), u(p[2]), u(p[3]), fam.addr(g1)}
+			b := &ph{u(p[5]), u(p[6]), u(p[7]), fam.addr(g2)}
 			exp := p[9] == "1"
 			table[[8]uint32{a.h, a.mhg, a.mhp, u(p[4]), b.h, b.mhg, b.mhp, u(p[8])}] = exp
 			if a.h > maxF {
 				maxF = a.h
 			}
-			got := contradiction.AreDistinctHeadersContradicting(a, b)
+			idKey := func(k string) string {
+				if fam.name != "ordinary" {
+					return k + ":generator-identity"
+				}
+				return k
+			}
+			rp := map[string]interface{}{"row": p, "generators": fam.name}
 			out.Pairs++
+			out.Families[fam.name]++
 			if exp {
 				out.PairsTrue++
 			}
-			if got != exp {
-				viol("contradiction-table", fmt.Sprintf("AreDistinctHeadersContradicting(%v,%v)=%v, LIP-0014 says %v", p[1:5], p[5:9], got, exp), p)
+			// the ordinary addresses first: a deviation there is not about generator identities
+			baseOK := true
+			if fam.name != "ordinary" {
+				oa := &ph{a.h, a.mhg, a.mhp, fams[0].addr(g1)}
+				ob := &ph{b.h, b.mhg, b.mhp, fams[0].addr(g2)}
+				if g0 := contradiction.AreDistinctHeadersContradicting(oa, ob); g0 != exp {
+					baseOK = false
+					viol("contradiction-table", fmt.Sprintf("AreDistinctHeadersContradicting(%v,%v)=%v, LIP-0014 says %v", p[1:5], p[5:9], g0, exp), rp)
+				}
 			}
+			got := contradiction.AreDistinctHeadersContradicting(a, b)
+			if got != exp && baseOK {
+				viol(idKey("contradiction-table"), fmt.Sprintf("AreDistinctHeadersContradicting(%v,%v)=%v with generator addresses %x / %x (%s), LIP-0014 says %v", p[1:5], p[5:9], got, a.gen, b.gen, fam.name, exp), rp)
+			}
+			sameFields := a.h == b.h && a.mhg == b.mhg && a.mhp == b.mhp && g1 == g2
 			// API level: distinct ids -> same verdict; same id -> never
-			if out.Pairs%7 == 0 {
-				h1 := sealed(a.h, a.mhg, a.mhp, int(u(p[4])), 1)
-				h2 := sealed(b.h, b.mhg, b.mhp, int(u(p[8])), 2)
-				g2, err := api.AreHeadersContradicting(h1.Readonly(), h2.Readonly())
-				if err != nil || g2 != exp {
-					viol("contradiction-api", fmt.Sprintf("API.AreHeadersContradicting(%v,%v)=%v err=%v, expected %v", p[1:5], p[5:9], g2, err, exp), p)
+			if hsh(line)%7 == 0 || sameFields {
+				h1 := sealedV(2, a.h, a.mhg, a.mhp, fam.addr(g1), 1)
+				h2 := sealedV(2, b.h, b.mhg, b.mhp, fam.addr(g2), 2)
+				out.APIPairs++
+				g2v, err := api.AreHeadersContradicting(h1.Readonly(), h2.Readonly())
+				if (err != nil || g2v != exp) && !baseOK {
+					viol("contradiction-api", fmt.Sprintf("API.AreHeadersContradicting(%v,%v)=%v err=%v, expected %v", p[1:5], p[5:9], g2v, err, exp), rp)
+				} else if err != nil || g2v != exp {
+					viol(idKey("contradiction-api"), fmt.Sprintf("API.AreHeadersContradicting(%v,%v)=%v err=%v (generators: %s), expected %v", p[1:5], p[5:9], g2v, err, fam.name, exp), rp)
 				}
 				g3, err := api.AreHeadersContradicting(h1.Readonly(), h1.Readonly())
 				if err != nil || g3 {
-					viol("contradiction-api-same-id", "a header is reported as contradicting itself", p)
+					viol("contradiction-api-same-id", "a header is reported as contradicting itself", rp)
+				}
+				// the same header after a trip over the wire: another object, the same id
+				if cp, derr := blockchain.NewBlockHeader(h1.Encode()); derr == nil && bytes.Equal(cp.ID, h1.ID) {
+					out.Redecoded++
+					g4, err := api.AreHeadersContradicting(h1.Readonly(), cp.Readonly())
+					g5, err2 := api.AreHeadersContradicting(cp.Readonly(), h1.Readonly())
+					if err != nil || err2 != nil || g4 || g5 {
+						viol("contradiction-api-same-id:decoded-copy", fmt.Sprintf("a header %v and its re-decoded copy (same id) are reported as contradicting (%v/%v, err %v/%v)", p[1:5], g4, g5, err, err2), rp)
+					}
+				}
+				if sameFields {
+					// two DIFFERENT blocks of one generator with equal BFT fields and equal signature bytes (ids differ through the
+					// timestamp / the previous block id): double forging, whatever else the two headers share
+					for variant := 0; variant < 2; variant++ {
+						h3 := &blockchain.BlockHeader{Version: 2, Height: a.h, MaxHeightGenerated: a.mhg, MaxHeightPrevoted: a.mhp,
+							GeneratorAddress: fam.addr(g1), PreviousBlockID: make([]byte, 32), AggregateCommit: &blockchain.AggregateCommit{},
+							Signature: []byte{1}}
+						if variant == 0 {
+							h3.Timestamp = 1
+						} else {
+							h3.PreviousBlockID = rep(0x01, 32)
+						}
+						h3.Init()
+						if bytes.Equal(h3.ID, h1.ID) {
+							continue
+						}
+						out.EqualFields++
+						g6, err := api.AreHeadersContradicting(h1.Readonly(), h3.Readonly())
+						g7, err2 := api.AreHeadersContradicting(h3.Readonly(), h1.Readonly())
+						if err != nil || err2 != nil || g6 != exp || g7 != exp {
+							viol("contradiction-api-equal-fields", fmt.Sprintf("two distinct headers of one generator with equal (height, maxHeightGenerated, maxHeightPrevoted) = %v and equal signature bytes: API.AreHeadersContradicting = %v/%v (err %v/%v), LIP-0014 says %v",
+								p[1:4], g6, g7, err, err2, exp), rp)
+						}
+					}
 				}
 			}
 			if len(out.Samples) < 2 {
 				out.Samples = append(out.Samples, line)
 			}
 		case "TC":
+			// <<"TC", id, h, prev, gen, mhp, slot, recvLast, recvCur, class, PIdentical, PValid, PDouble, PTie, PDiff>>
+			row := hsh(line)
 			out.Cases++
 			exp := p[9]
 			out.Classes[exp]++
-			now := uint32(time.Now().Unix())
-			incSlot := int(u(p[6]))
-			nowSlot := incSlot
-			if p[8] != "1" {
-				nowSlot = incSlot + 3
+			incSlot := in(p[6])
+			recvLast, recvCur := in(p[7]), in(p[8])
+			noRecv := recvLast <= -bt
+			absH, absP := in(p[2]), in(p[5])
+			if p[1] != "1" && absH == 3 && absP == 1 && p[3] == "0" && (recvLast == -1 || recvLast == 0 || recvLast == bt-1 || recvLast == bt) && recvCur != 3*bt+bt/2 {
+				out.CaseBoundary++
 			}
-			genesis := now - uint32(nowSlot*1000+500)
-			slot := validator.NewBlockSlot(genesis, 1000)
-			ts := func(k int) uint32 { return genesis + uint32(k*1000+100) }
-			parent := crypto.Hash([]byte("parent"))
-			tip := &blockchain.BlockHeader{Version: 2, Height: 3, MaxHeightPrevoted: 1, Timestamp: ts(5), PreviousBlockID: parent,
-				GeneratorAddress: bftx.Addr(1), AggregateCommit: &blockchain.AggregateCommit{}, Signature: []byte{1}}
-			tip.Init()
-			inc := tip
-			if p[1] != "1" {
-				prev := parent
-				if p[3] == "1" {
-					prev = tip.ID
-				} else if p[3] == "9" {
-					prev = crypto.Hash([]byte("other"))
-				}
-				inc = &blockchain.BlockHeader{Version: 2, Height: u(p[2]), MaxHeightPrevoted: u(p[5]), Timestamp: ts(incSlot), PreviousBlockID: prev,
-					GeneratorAddress: bftx.Addr(int(u(p[4]))), AggregateCommit: &blockchain.AggregateCommit{}, Signature: []byte{2}}
-				inc.Init()
-			}
-			var last *time.Time
-			if p[7] == "in" {
-				t := time.Unix(int64(genesis+5*1000+200), 0)
-				last = &t
-			} else if p[7] == "out" {
-				t := time.Unix(int64(genesis+8*1000+200), 0)
-				last = &t
-			}
-			fc, err := forkchoice.NewForkChoice(tip, inc, slot, last)
-			if err != nil {
-				viol("forkchoice-error", err.Error(), p)
-				continue
-			}
-			preds := []bool{fc.IsIdenticalBlock(), fc.IsValidBlock(), fc.IsDoubleForging(), fc.IsTieBreak(), fc.IsDifferentChain()}
+			fam := fams[row%len(fams)]
 			names := []string{"identical", "valid", "doubleforging", "tiebreak", "differentchain"}
-			got := "discard"
-			for i, b := range preds {
-				if b {
-					got = names[i]
+			// concretisations of the row: small integers with the ordinary addresses first (a deviation there is reported under
+			// the plain key and the other concretisations of the row are not reported on top of it), then the row's address
+			// family, then the uint32 maps
+			type combo struct {
+				e   emb
+				fam family
+			}
+			combos := []combo{{embs[0], fams[0]}}
+			if fam.name != "ordinary" {
+				combos = append(combos, combo{embs[0], fam})
+			}
+			for _, e := range embs[1:] {
+				combos = append(combos, combo{e, fams[0]})
+			}
+			baseOK := true
+			for ci, cb := range combos {
+				e, fam := cb.e, cb.fam
+				if e.H[absH-2] < 0 || e.P[absP] < 0 || (e.aboveTip && absH <= 3) {
+					continue
+				}
+				tipH, tipP := uint32(e.H[1]), uint32(e.P[1])
+				incH, incP := uint32(e.H[absH-2]), uint32(e.P[absP])
+				tsOffInc := []uint32{0, 100, bt - 1}[(row/8)%3]
+				tsOffTip := []uint32{100, bt - 1, 0}[(row/24)%3]
+				var preds []bool
+				judged := false
+				for attempt := 0; attempt < 6 && !judged; attempt++ {
+					now := time.Now().Unix()
+					genesis := uint32(now - int64(incSlot*bt+recvCur))
+					slot := validator.NewBlockSlot(genesis, bt)
+					parent := crypto.Hash([]byte("parent"))
+					tip := &blockchain.BlockHeader{Version: e.tipVersion, Height: tipH, MaxHeightPrevoted: tipP, Timestamp: genesis + 5*bt + tsOffTip, PreviousBlockID: parent,
+						GeneratorAddress: fam.addr(1), AggregateCommit: &blockchain.AggregateCommit{}, Signature: []byte{1}}
+					tip.Init()
+					inc := tip
+					if p[1] != "1" {
+						prev := parent
+						if p[3] == "1" {
+							prev = tip.ID
+						} else if p[3] == "9" {
+							prev = crypto.Hash([]byte("other"))
+						}
+						inc = &blockchain.BlockHeader{Version: 2, Height: incH, MaxHeightPrevoted: incP, Timestamp: genesis + uint32(incSlot*bt) + tsOffInc, PreviousBlockID: prev,
+							GeneratorAddress: fam.addr(in(p[4])), AggregateCommit: &blockchain.AggregateCommit{}, Signature: []byte{2}}
+						inc.Init()
+					}
+					var last *time.Time
+					if !noRecv {
+						t := time.Unix(int64(genesis)+5*bt+int64(recvLast), int64((row/72)%2)*999999999)
+						last = &t
+					}
+					fc, err := forkchoice.NewForkChoice(tip, inc, slot, last)
+					if err != nil {
+						viol("forkchoice-error", err.Error(), p)
+						break
+					}
+					preds = []bool{fc.IsIdenticalBlock(), fc.IsValidBlock(), fc.IsDoubleForging(), fc.IsTieBreak(), fc.IsDifferentChain()}
+					if time.Now().Unix() == now {
+						judged = true // the wall clock stayed inside the second the row was set up for
+					} else {
+						out.CaseRetried++
+					}
+				}
+				if !judged {
+					out.CaseUnjudged++
+					continue
+				}
+				out.CaseEvals++
+				out.CaseEmb[e.name]++
+				if fam.name != "ordinary" {
+					out.CaseFam[fam.name]++
+				}
+				got := "discard"
+				for i, b := range preds {
+					if b {
+						got = names[i]
+						break
+					}
+				}
+				suffix := ""
+				if e.name == "genesis-tip" {
+					suffix = ":genesis-tip"
+				} else if e.name != "small" {
+					suffix = ":uint32"
+				} else if fam.name != "ordinary" {
+					suffix = ":generator-identity"
+				}
+				rp := map[string]interface{}{"row": p, "embedding": e.name, "tip": []uint32{tipH, tipP}, "incoming": []uint32{incH, incP}, "generators": fam.name}
+				// an individual predicate is compared where the cascade reaches it (every earlier case of the specification is
+				// false on the row): there its value IS the classification.  Where an earlier case decides, LIP-0014 leaves
+				// the later predicates without meaning and so does this check.
+				for i, b := range preds {
+					reached := true
+					for j := 0; j < i; j++ {
+						if p[10+j] == "1" {
+							reached = false
+						}
+					}
+					if !reached {
+						break
+					}
+					out.PredsCompared++
+					if b != (p[10+i] == "1") && (baseOK || ci == 0) {
+						viol("forkchoice-predicate:"+names[i]+suffix, fmt.Sprintf("predicate %s is %v on row %v (tip height/prevoted %d/%d version %d, incoming %d/%d, generators %s), LIP-0014 says %v",
+							names[i], b, p[1:9], tipH, tipP, e.tipVersion, incH, incP, fam.name, p[10+i]), rp)
+					}
+				}
+				if got != exp && ci == 0 {
+					baseOK = false
+				}
+				if got != exp && (baseOK || ci == 0) {
+					viol("forkchoice-classify"+suffix, fmt.Sprintf("row %v (tip height/prevoted %d/%d version %d, incoming %d/%d, generators %s; receive offsets tip %d incoming %d of %d s slots) classified %s, expected %s",
+						p[1:9], tipH, tipP, e.tipVersion, incH, incP, fam.name, recvLast, recvCur, bt, got, exp), rp)
+				}
+			}
+		case "TP":
+			// <<"TP", hh, hp, h, p, res, ver>>
+			out.Prios++
+			ver := uint32(2)
+			if len(p) > 6 {
+				ver = u(p[6])
+			}
+			if ver == 0 {
+				out.PriosGenesis++
+			}
+			expP := p[5] == "1"
+			maps := append([][5]uint32{}, prioEmbs...)
+			var rm [5]uint32 // one random strictly increasing map per row
+			for {
+				vs := []uint32{r.Uint32(), r.Uint32(), r.Uint32(), r.Uint32(), r.Uint32()}
+				sort.Slice(vs, func(a, b int) bool { return vs[a] < vs[b] })
+				if vs[0] < vs[1] && vs[1] < vs[2] && vs[2] < vs[3] && vs[3] < vs[4] {
+					copy(rm[:], vs)
 					break
 				}
 			}
-			// individual predicates are compared where the spec row fixes them: for id=1 rows the
-			// incoming header IS the tip, so only the cascade result is meaningful
-			if p[1] != "1" {
-				for i, b := range preds {
-					if b != (p[10+i] == "1") {
-						viol("forkchoice-predicate:"+names[i], fmt.Sprintf("predicate %s is %v on row %v, LIP-0014 says %v", names[i], b, p[1:9], p[10+i]), p)
+			maps = append(maps, rm)
+			small := u(p[1]) <= 4 && u(p[2]) <= 4 && u(p[3]) <= 4 && u(p[4]) <= 4
+			for mi, m := range maps {
+				hh, hp, h, pp := u(p[1]), u(p[2]), u(p[3]), u(p[4]) // maps[0] is the identity
+				if mi > 0 {
+					if !small {
+						break
 					}
+					hh, hp, h, pp = m[hh], m[hp], m[h], m[pp]
 				}
-			}
-			if got != exp {
-				viol("forkchoice-classify", fmt.Sprintf("row %v classified %s, expected %s", p[1:9], got, exp), p)
-			}
-		case "TP":
-			out.Prios++
-			hdr := sealed(u(p[1]), 0, u(p[2]), 1, 1)
-			got, err := api.HeaderHasPriority(nil, hdr.Readonly(), u(p[3]), u(p[4]), 0)
-			if err != nil || got != (p[5] == "1") {
-				viol("header-priority", fmt.Sprintf("HeaderHasPriority(header h=%s mhp=%s over h=%s mhp=%s)=%v, expected %s", p[1], p[2], p[3], p[4], got, p[5]), p)
+				hdr := sealedV(ver, hh, 0, hp, bftx.Addr(1), 1)
+				got, err := api.HeaderHasPriority(nil, hdr.Readonly(), h, pp, 0)
+				out.PrioEvals++
+				if err != nil || got != expP {
+					key := "header-priority"
+					if ver == 0 {
+						key += ":genesis"
+					} else if mi > 0 {
+						key += ":uint32"
+					}
+					viol(key, fmt.Sprintf("HeaderHasPriority(header version %d h=%d mhp=%d over h=%d mhp=%d)=%v err=%v, expected %v (table row %v)", ver, hh, hp, h, pp, got, err, expP, p[1:7]),
+						map[string]interface{}{"row": p, "values": []uint32{hh, hp, h, pp}})
+				}
 			}
 		}
 	}
 	// uint32-range pairs: the spec's Contra uses comparisons only, so the verdict on arbitrary values equals
 	// the table entry of the rank-compressed values (<= 6 distinct values -> ranks 0..5)
-	r := rand.New(rand.NewSource(int64(tj.EnvInt("VERIF_SEED", 1))))
 	pick := func() uint32 {
 		switch r.Intn(6) {
 		case 0:
@@ -222,6 +500,7 @@ func main() {
 		}
 		return r.Uint32()
 	}
+	boundary := func(v uint32) bool { return v == 0 || v == 0xffffffff || v == 0x7fffffff || v == 0x80000000 }
 	for i := 0; i < nrand && maxF >= 5; i++ {
 		vals := []uint32{pick(), pick(), pick(), pick(), pick(), pick()}
 		if r.Intn(2) == 0 { // make coincidences likely
@@ -232,6 +511,7 @@ func main() {
 			}
 		}
 		g1, g2 := 1+r.Intn(2), 1+r.Intn(2)
+		fam := fams[r.Intn(len(fams))]
 		sorted := append([]uint32{}, vals...)
 		sort.Slice(sorted, func(a, b int) bool { return sorted[a] < sorted[b] })
 		rank := map[uint32]uint32{}
@@ -245,16 +525,33 @@ func main() {
 		if !ok {
 			continue
 		}
-		a := &ph{vals[0], vals[1], vals[2], bftx.Addr(g1)}
-		b := &ph{vals[3], vals[4], vals[5], bftx.Addr(g2)}
+		a := &ph{vals[0], vals[1], vals[2], fam.addr(g1)}
+		b := &ph{vals[3], vals[4], vals[5], fam.addr(g2)}
 		got := contradiction.AreDistinctHeadersContradicting(a, b)
 		got2 := contradiction.AreDistinctHeadersContradicting(b, a)
 		out.Random++
 		if exp {
 			out.RandomTrue++
 		}
+		for _, v := range vals {
+			if boundary(v) {
+				out.RandomBoundary++
+				break
+			}
+		}
+		rp := map[string]interface{}{"values": vals, "generators": []int{g1, g2}, "family": fam.name}
 		if got != exp || got2 != exp {
-			viol("contradiction-uint32", fmt.Sprintf("pair %v gen %d/%d: real %v/%v (swapped), LIP-0014 on ranks %v says %v", vals, g1, g2, got, got2, key, exp), vals)
+			viol("contradiction-uint32", fmt.Sprintf("pair %v gen %d/%d (addresses: %s): real %v/%v (swapped), LIP-0014 on ranks %v says %v", vals, g1, g2, fam.name, got, got2, key, exp), rp)
+		}
+		if i%4 == 0 {
+			h1 := sealedV(2, vals[0], vals[1], vals[2], fam.addr(g1), 1)
+			h2 := sealedV(2, vals[3], vals[4], vals[5], fam.addr(g2), 2)
+			out.RandomAPI++
+			g3, err := api.AreHeadersContradicting(h1.Readonly(), h2.Readonly())
+			g4, err2 := api.AreHeadersContradicting(h2.Readonly(), h1.Readonly())
+			if err != nil || err2 != nil || g3 != exp || g4 != exp {
+				viol("contradiction-uint32:api", fmt.Sprintf("API.AreHeadersContradicting on pair %v gen %d/%d (addresses: %s): %v/%v (swapped) err %v/%v, LIP-0014 on ranks %v says %v", vals, g1, g2, fam.name, g3, g4, err, err2, key, exp), rp)
+			}
 		}
 	}
 	tj.WriteJSON(os.Args[2], out)
